@@ -20,7 +20,7 @@ CLAIMED = {
  "C17": "Inductive step of getGengine and of the put goroutine from an arbitrary distribution of the instances of (1,2), (1,3), (2,3) pools over {own list, in flight} with arbitrarily rotated lists: a get hands out a listed instance never one in flight and removes it, with both lists empty it spins with state and locks unchanged (waits, does not fail), a put appends exactly that instance to its own list, the partition invariant is preserved; every one of the 24 pool entry points hands its instance back after normal return, rule error and a panic leaving the pool method.",
  "C19": "Race query (two conflicting accesses adjacent in some consistent interleaving of the extracted event structure) on gengine's own state - pool bookkeeping fields, result map, local maps, data context map, captured error slices, builder.Kc and the three container fields - for every concurrent engine model, two and three pool requests, a pool request concurrent with each management operation (full / incremental / removal / clear / model change / queries); each reported pair is confirmed under go test -race.",
  "C02": "140 (thorough 700) generated statement programs (depth <= 3: if / else-if chains / else, for, forRange over slice and map, break, continue, return at any depth, plain and compound assignments to locals and to an injected field) plus hand-written programs per clause are compiled by the real front end and executed symbolically; every branch condition is a fresh symbolic boolean or a comparison of locals, loop bounds are symbolic in [0,3]; trace of observer calls, returned value, final locals and final injected state must equal those of the same program emitted as Go code, for every path.",
- "C03": "One read, write or call per rule over a struct with every numeric width, string, bool, nested struct, pointer, maps, slices, arrays and pointer-injected scalars (all contents symbolic): the host-side value after Execute equals T(x) for every target type and source class (assumed representable), all 50 other locations equal their snapshot (frame condition), reads return the current Go value (zero for a missing key), calls receive converted positional arguments and yield the first result, an injected name is never shadowed. Runs through the reflect model.",
+ "C03": "One read, write or call per rule over a struct with every numeric width, string, bool, nested struct, pointer, maps, slices, arrays and pointer-injected scalars (all contents symbolic): the host-side value after Execute equals T(x) for every target type and source class (assumed representable; including unsigned values above MaxInt64 and large negative values into float targets and float parameters), all 50 other locations equal their snapshot (frame condition), reads return the current Go value (zero for a missing key), calls receive converted positional arguments and yield the first result, an injected name is never shadowed. Runs through the reflect model.",
  "C09": "16 expression faults x 11 positions and 18 statement-level faults (quick: stratified subset), in the sort model and, for the assignment / condition / statement-level positions, in 12 further models: the deciding datum (divisor, index, nil-ness) is symbolic, a path ending in an uncaught panic of any goroutine, a deadlock or the step budget is a violation, faulting paths must return a non-nil error, healthy rules run as the policy prescribes and a second healthy call on the same engine succeeds. The never-ending for is run to the 10000-iteration cut-off.",
  "C18": "conc blocks with 0..3 (thorough 4) members over every mix of local assignment, injected-field assignment, function, method and three-level call with a symbolic failing subset: every member runs exactly once, the next statement starts after all member end events in every interleaving (schedule SMT), observes every assignment, the block fails iff a member fails and only after all finished (join), and neither the local map nor the error slice is accessed by two goroutines adjacently.",
  "C20": "Every fault of the C09 table is placed on a known line of a three-rule text with comment and blank lines; on every faulting path each 'line N, column' citation must lie inside the failing statement and never be 0, and for arithmetic, comparison, logic, call and assignment faults the line of the failing construct must be cited.",
@@ -29,7 +29,7 @@ CLAIMED = {
  "C14": "Stop-tag variants over 1..3 (thorough 4) rules with symbolic tag-setting subset, failing subset, policy and saliences: no rule starts after the first rule that set the tag (mix: nothing after the first rule), and a differential harness proves the tag variants equal to their plain counterparts (trace, error-ness, result map) when the tag is never set.",
  "C15": "In every engine entry point, twice per engine, a lower-priority rule that only reads a local assigned by another rule fails with not-found and each rule returns its own value; accesses to the per-execution local map are events and the race query shows no map is touched by two goroutines in any schedule.",
  "C05": "Mix, inverse-mix and the three N-M models over 1..3 (thorough 4) rules, every N/M split and the rejected shapes: saliences, failing subset and error policy are symbolic; per control path the logged events (rule start/end, spawn, WaitGroup, mutex) form an event structure and z3 decides over integer time stamps that in no consistent interleaving a stage-two rule starts before a stage-one rule ends, that nothing runs after the call returns, and the exactly-once / window / stop-continue oracle.",
- "C11": "All 21 engine execution entry points (and two DAG shapes) are run twice on one engine with symbolic return/fail flags and values per rule (value return, bare return, failing return expression, fault, none; returns nested in if/for/forRange): the result map must hold exactly the rules that ran in that call and reached a return, with their values; accesses to the result map are events in the join query.",
+ "C11": "All 21 engine execution entry points (and two DAG shapes) are run twice on one engine with symbolic return/fail flags and values per rule (value return, bare return, failing return expression, fault, none; returns nested in if/for/forRange): the result map must hold exactly the rules that ran in that call and reached a return, with their values, also when the second call is a selected entry point whose name list resolves to nothing; accesses to the result map are events in the join query.",
  "C01": "Every binary operator x every ordered pair of the 14 operand kinds, every operator pair (thorough: triple) with and without parentheses, literals, negation, rule locals and the four metadata constants are compiled by the real front end and evaluated symbolically (Expression/MathExpression/Atom/Constant.Evaluate, core.Add/Sub/Mul/Div) with all operand values symbolic; z3 proves equality with a reference generated from an independent precedence parse, and 'error iff zero divisor / ill-typed, never a value'. Bounded in expression size only.",
  "C04": "For rule sets of 1..3 (thorough 4) rules with symbolic int64 saliences, symbolic failing subset and symbolic error-policy flag, every path of BuildRuleFromString's sort/index tail and of Execute / ExecuteWithStopTagDirect / ExecuteSelectedRules / ExecuteSelectedRulesWithControl is executed symbolically from SSA and the order / exactly-once / error-policy oracle is discharged by z3 for all values; outside the bound nothing is claimed.",
 }
